@@ -523,6 +523,8 @@ where
         };
 
         info!("import! {}", modulename);
+        #[cfg(feature = "verif_hooks")]
+        crate::vm::verif::sched_point("import_before_fork");
 
         let mut db = try_future!(
             macros
